@@ -125,7 +125,7 @@ MUTANTS += [
 
 MUTANTS += [
     # ---- C07
-    M("c07-cmp-no-policy", "C07", "comparison handler skips the policy (CVE-2019-16328)", (P, 'return self._access_attr(type(obj), op, (), "_rpyc_getattr", "allow_getattr", getattr)(obj, other)', 'return getattr(type(obj), op)(obj, other)')),
+    M("c07-cmp-no-policy", "C07,C06", "comparison handler skips the policy (CVE-2019-16328)", (P, 'return self._access_attr(type(obj), op, (), "_rpyc_getattr", "allow_getattr", getattr)(obj, other)', 'return getattr(type(obj), op)(obj, other)')),
     M("c07-pickle-always", "C07", "allow_pickle test removed", (P, '        if not self._config["allow_pickle"]:\n            raise ValueError("pickling is disabled")', '        pass')),
     M("c07-global-table", "C07", "LOCAL_REF falls back to a process-global id table", (P, "        if label == consts.LABEL_LOCAL_REF:\n            return self._local_objects[value]", "        if label == consts.LABEL_LOCAL_REF:\n            try:\n                return self._local_objects[value]\n            except KeyError:\n                import ctypes\n                return ctypes.cast(value[2], ctypes.py_object).value if isinstance(value[2], int) and value[2] in {id(o) for o in gc.get_objects()} else self._local_objects[value]")),
     M("c07-getattr-fallback", "C07", "_handle_getattr falls back to plain getattr on AttributeError", (P, '        return self._access_attr(obj, name, (), "_rpyc_getattr", "allow_getattr", getattr)\n\n    def _handle_delattr', '        try:\n            return self._access_attr(obj, name, (), "_rpyc_getattr", "allow_getattr", getattr)\n        except AttributeError:\n            return getattr(obj, name)\n\n    def _handle_delattr')),
